@@ -13,9 +13,11 @@ RULE = ('format strings over {#, ., comma, +, -, &, !, _, x, blank}: all strings
         'sampled longer ones, kept when they contain >=1 field under the reference grammar and are unambiguous (see '
         'assumptions); each with exactly one value per field from the boundary set {0, +-0.5*10^-d, +-(10^w-1), +-10^w, '
         '9.995-type carries, +-1234567.891, tiny} as INTEGER/LONG/SINGLE/DOUBLE, strings {"a","hello"} for & and !; statement '
-        'with and without trailing separator; oracle = independent reference formatter on Decimal(value) accepting both '
-        'tie-breaking rules and both treatments of a leading zero that does not fit; distinct = (format, value tuple)')
-ASSUMPTIONS = ['ambiguous formats are not judged: a "-" or "+" directly before a field that is not a trailing sign, a comma not '
+        'with and without trailing separator; oracle = independent reference formatter on Decimal(value), exact ties rounded '
+        'away from zero, accepting both treatments of a leading zero that does not fit; distinct = (format, value tuple)')
+ASSUMPTIONS = ['"rounded" is read as BASIC rounds when printing: to nearest, an exact tie (the binary value lies exactly half way) '
+               'away from zero - .5 in "##" is 1, 2.5 is 3, .125 in "#.##" is 0.13',
+               'ambiguous formats are not judged: a "-" or "+" directly before a field that is not a trailing sign, a comma not '
                'followed by a digit position or the point, a trailing "_", "!" with an empty string, format reuse',
                'a field is: [+] digit positions (# and commas) [. #...] [trailing + or - when there is no leading +]']
 REQUIRED_COUNTERS = ['formats_checked', 'numeric_fields_checked', 'string_fields_checked', 'overflow_marks_expected']
@@ -126,7 +128,7 @@ def fmt_num(spec, value):
     q = Decimal(1).scaleb(-dec)
     accepted = set()
     overflow_any = False
-    for mode in (ROUND_HALF_UP, ROUND_HALF_EVEN):
+    for mode in (ROUND_HALF_UP,):
         outs = set()
         r = a.quantize(q, rounding=mode)
         s = f'{r:f}'
